@@ -186,6 +186,10 @@ func nilTest(cond ssa.Value) (x ssa.Value, nilWhenTrue bool, ok bool) {
 // b through the dominator tree: for each dominating If whose one successor
 // dominates b (and is entered only from that If), yield (cond, polarity).
 func edgeFacts(b *ssa.BasicBlock, f func(cond ssa.Value, val bool) bool) {
+	edgeFactsD(b, f, 0)
+}
+
+func edgeFactsD(b *ssa.BasicBlock, f func(cond ssa.Value, val bool) bool, depth int) {
 	// s is entered only through the edge d->s (other predecessors are back
 	// edges from blocks that s itself dominates)
 	onlyVia := func(s, d *ssa.BasicBlock) bool {
@@ -206,11 +210,11 @@ func edgeFacts(b *ssa.BasicBlock, f func(cond ssa.Value, val bool) bool) {
 				t, e := d.Succs[0], d.Succs[1]
 				if t != e {
 					if onlyVia(t, d) && t.Dominates(b) {
-						if !f(iff.Cond, true) {
+						if !expandBoolFact(iff.Cond, true, f, depth) {
 							return
 						}
 					} else if onlyVia(e, d) && e.Dominates(b) {
-						if !f(iff.Cond, false) {
+						if !expandBoolFact(iff.Cond, false, f, depth) {
 							return
 						}
 					}
@@ -219,6 +223,74 @@ func edgeFacts(b *ssa.BasicBlock, f func(cond ssa.Value, val bool) bool) {
 		}
 		cur = d
 	}
+}
+
+// loweredBoolPhi: v (negations stripped) is a phi of booleans at least one edge of which is a
+// constant – what `t := a && b` / `a || b` is lowered to.
+func loweredBoolPhi(v ssa.Value) (*ssa.Phi, bool) {
+	for {
+		if u, ok := v.(*ssa.UnOp); ok && u.Op == token.NOT {
+			v = u.X
+			continue
+		}
+		break
+	}
+	phi, ok := v.(*ssa.Phi)
+	if !ok {
+		return nil, false
+	}
+	if b, isB := phi.Type().Underlying().(*types.Basic); !isB || b.Kind() != types.Bool {
+		return nil, false
+	}
+	for _, e := range phi.Edges {
+		if _, isC := e.(*ssa.Const); isC {
+			return phi, true
+		}
+	}
+	return nil, false
+}
+
+// expandBoolFact delivers the fact (cond == val).  A condition that was given a name
+// (`t := a && b; if t`) is a phi of booleans: when its value leaves exactly one way to have
+// got there (t true: through the edge carrying b, with a true on the way), the facts of that way
+// are delivered instead – the same facts the unnamed form `if a && b` yields.
+func expandBoolFact(cond ssa.Value, val bool, f func(cond ssa.Value, val bool) bool, depth int) bool {
+	c, v := cond, val
+	for {
+		if u, ok := c.(*ssa.UnOp); ok && u.Op == token.NOT {
+			c, v = u.X, !v
+			continue
+		}
+		break
+	}
+	phi, ok := loweredBoolPhi(c)
+	if !ok || depth > 3 {
+		return f(cond, val)
+	}
+	possible, at := 0, -1
+	for i, e := range phi.Edges {
+		if k, isC := e.(*ssa.Const); isC {
+			if k.Value != nil && constant.BoolVal(k.Value) != v {
+				continue // this edge would have given the other value
+			}
+			possible++
+			continue
+		}
+		possible++
+		at = i
+	}
+	if possible != 1 || at < 0 {
+		return f(cond, val)
+	}
+	if !expandBoolFact(phi.Edges[at], v, f, depth+1) {
+		return false
+	}
+	cont := true
+	edgeFactsOnD(phi.Block().Preds[at], phi.Block(), func(c2 ssa.Value, v2 bool) bool {
+		cont = f(c2, v2)
+		return cont
+	}, depth+1)
+	return cont
 }
 
 // condImplies: does (cond == val) imply fact(x, isNil)? Handles !, &&-chains
@@ -444,12 +516,30 @@ func fieldOf(v ssa.Value) *types.Var {
 		}
 	case *ssa.FieldAddr:
 		t := x.X.Type().Underlying().(*types.Pointer).Elem().Underlying().(*types.Struct)
-		return t.Field(x.Field)
+		return refNamedField(x.X.Type(), t, x.Field)
 	case *ssa.Field:
 		t := x.X.Type().Underlying().(*types.Struct)
-		return t.Field(x.Field)
+		return refNamedField(x.X.Type(), t, x.Field)
 	}
 	return nil
+}
+
+var refNamedFieldCache = map[*types.Var]*types.Var{}
+
+// refNamedField: field idx of st, presented under the name it has on the reference tree
+// (fieldmap.go) – the rules that look for a field by name keep finding it after a rename.
+// One stand-in per field, so that identity comparisons keep working.
+func refNamedField(base types.Type, st *types.Struct, idx int) *types.Var {
+	f := st.Field(idx)
+	if r, ok := refNamedFieldCache[f]; ok {
+		return r
+	}
+	r := f
+	if _, n := canonField(base, idx); n != "?" && n != f.Name() {
+		r = types.NewField(f.Pos(), f.Pkg(), n, f.Type(), f.Embedded())
+	}
+	refNamedFieldCache[f] = r
+	return r
 }
 
 // deepSlice is a container-aware backward slice: besides operands it follows
@@ -905,20 +995,24 @@ func isReceiverValue(fn *ssa.Function, v ssa.Value) bool {
 // moves along the edge p -> s: p's own branch (when p ends in an If with two
 // different successors) and everything edgeFacts knows on entry to p.
 func edgeFactsOn(p, s *ssa.BasicBlock, f func(cond ssa.Value, val bool) bool) {
+	edgeFactsOnD(p, s, f, 0)
+}
+
+func edgeFactsOnD(p, s *ssa.BasicBlock, f func(cond ssa.Value, val bool) bool, depth int) {
 	if len(p.Instrs) > 0 {
 		if iff, ok := p.Instrs[len(p.Instrs)-1].(*ssa.If); ok && p.Succs[0] != p.Succs[1] {
 			if p.Succs[0] == s {
-				if !f(iff.Cond, true) {
+				if !expandBoolFact(iff.Cond, true, f, depth) {
 					return
 				}
 			} else if p.Succs[1] == s {
-				if !f(iff.Cond, false) {
+				if !expandBoolFact(iff.Cond, false, f, depth) {
 					return
 				}
 			}
 		}
 	}
-	edgeFacts(p, f)
+	edgeFactsD(p, f, depth)
 }
 
 // normCmp presents (cond == val) as a comparison op(x, y) with the polarity
@@ -993,6 +1087,10 @@ func cmpLowerBound(op token.Token, x, y ssa.Value, subject func(ssa.Value) bool)
 				return k + 1, true
 			case token.GEQ, token.EQL:
 				return k, true
+			case token.NEQ:
+				if k == 0 && lengthLike(x) {
+					return 1, true // a length that is not zero is at least one
+				}
 			}
 		}
 	}
@@ -1003,10 +1101,33 @@ func cmpLowerBound(op token.Token, x, y ssa.Value, subject func(ssa.Value) bool)
 				return k + 1, true
 			case token.LEQ, token.EQL:
 				return k, true
+			case token.NEQ:
+				if k == 0 && lengthLike(y) {
+					return 1, true
+				}
 			}
 		}
 	}
 	return 0, false
+}
+
+// lengthLike: a value that cannot be negative – len / cap of something, or the result of a
+// method called Length or Len.
+func lengthLike(v ssa.Value) bool {
+	c, ok := stripConv(v).(*ssa.Call)
+	if !ok {
+		return false
+	}
+	if b, isB := c.Call.Value.(*ssa.Builtin); isB {
+		return b.Name() == "len" || b.Name() == "cap"
+	}
+	if c.Call.IsInvoke() {
+		return c.Call.Method.Name() == "Length" || c.Call.Method.Name() == "Len"
+	}
+	if sc := c.Call.StaticCallee(); sc != nil {
+		return sc.Name() == "Length" || sc.Name() == "Len"
+	}
+	return false
 }
 
 // returnedValue resolves result i of r through the spill go/ssa inserts in
